@@ -75,6 +75,7 @@ type Builder struct {
 	vars     map[string]*Term
 	umask    map[int]umaskEntry
 	SatCache map[string]SatResult
+	NoNarrow bool
 	True     *Term
 	False    *Term
 }
@@ -433,10 +434,26 @@ func (b *Builder) Eq(x, y *Term) *Term {
 			return b.Not(x)
 		}
 	}
+	if !b.NoNarrow {
+		if x.Op == OConst {
+			x, y = y, x
+		}
+		if x.Op == OSext {
+			a := x.Args[0]
+			if y.Op == OSext && y.Args[0].W == a.W {
+				return b.Eq(a, y.Args[0])
+			}
+			if y.Op == OConst {
+				if fitsSigned(y.Val, y.W, a.W) {
+					return b.Eq(a, b.Const(a.W, y.Val))
+				}
+				return b.False
+			}
+		}
+	}
 	if x.ID > y.ID {
 		x, y = y, x
 	}
-	// (ite c a b) == k with constant leaves
 	return b.intern(OEq, 0, 0, "", x, y)
 }
 
@@ -449,6 +466,17 @@ func (b *Builder) Ite(c, x, y *Term) *Term {
 	}
 	if x == y {
 		return x
+	}
+	if x.W != 0 && !b.NoNarrow {
+		if x.Op == OSext && y.Op == OSext && x.Args[0].W == y.Args[0].W {
+			return b.mk(OSext, x.W, uint64(x.W), b.Ite(c, x.Args[0], y.Args[0]))
+		}
+		if x.Op == OSext && y.Op == OConst && fitsSigned(y.Val, y.W, x.Args[0].W) {
+			return b.mk(OSext, x.W, uint64(x.W), b.Ite(c, x.Args[0], b.Const(x.Args[0].W, y.Val)))
+		}
+		if y.Op == OSext && x.Op == OConst && fitsSigned(x.Val, x.W, y.Args[0].W) {
+			return b.mk(OSext, y.W, uint64(y.W), b.Ite(c, b.Const(y.Args[0].W, x.Val), y.Args[0]))
+		}
 	}
 	if x.W == 0 {
 		if x.Op == OConst && y.Op == OConst {
@@ -483,6 +511,11 @@ func (b *Builder) Bin(op Op, x, y *Term) *Term {
 		if x == y {
 			return b.Bool(op == OUle || op == OSle)
 		}
+		if (op == OSlt || op == OSle) && !b.NoNarrow {
+			if r := b.narrowCmp(op, x, y); r != nil {
+				return r
+			}
+		}
 		return b.mk(op, 0, 0, x, y)
 	case OAdd:
 		if x.Op == OConst && x.Val == 0 {
@@ -490,6 +523,20 @@ func (b *Builder) Bin(op Op, x, y *Term) *Term {
 		}
 		if y.Op == OConst && y.Val == 0 {
 			return x
+		}
+		if !b.NoNarrow {
+			if x.Op == OConst {
+				x, y = y, x
+			}
+			// sext_w(a) + k  ==  sext(sext_2w(a) + k) when k is small: no overflow in 2w bits
+			if x.Op == OSext && y.Op == OConst && x.Args[0].W <= 16 && x.W > 2*x.Args[0].W {
+				aw := x.Args[0].W
+				if fitsSigned(y.Val, y.W, aw) {
+					w2 := 2 * aw
+					sum := b.mk(OAdd, w2, 0, b.Sext(x.Args[0], w2), b.Const(w2, y.Val))
+					return b.mk(OSext, x.W, uint64(x.W), sum)
+				}
+			}
 		}
 	case OSub:
 		if y.Op == OConst && y.Val == 0 {
@@ -502,6 +549,35 @@ func (b *Builder) Bin(op Op, x, y *Term) *Term {
 		return b.Bin(OBAnd, x, b.mk(OBNot, w, 0, y))
 	}
 	return b.mk(op, w, 0, x, y)
+}
+
+// fitsSigned reports whether the w-bit constant v is representable as a signed n-bit value.
+func fitsSigned(v uint64, w, n uint8) bool {
+	s := sx(v, w)
+	lim := int64(1) << (n - 1)
+	return s >= -lim && s < lim
+}
+
+// narrowCmp rewrites signed comparisons of sign-extended operands to the narrow width.
+func (b *Builder) narrowCmp(op Op, x, y *Term) *Term {
+	if x.Op == OSext && y.Op == OSext && x.Args[0].W == y.Args[0].W {
+		return b.Bin(op, x.Args[0], y.Args[0])
+	}
+	if x.Op == OSext && y.Op == OConst {
+		a := x.Args[0]
+		if fitsSigned(y.Val, y.W, a.W) {
+			return b.Bin(op, a, b.Const(a.W, y.Val))
+		}
+		return b.Bool(sx(y.Val, y.W) > 0) // a < huge positive: true; a < very negative: false
+	}
+	if y.Op == OSext && x.Op == OConst {
+		a := y.Args[0]
+		if fitsSigned(x.Val, x.W, a.W) {
+			return b.Bin(op, b.Const(a.W, x.Val), a)
+		}
+		return b.Bool(sx(x.Val, x.W) < 0)
+	}
+	return nil
 }
 
 func (b *Builder) Un(op Op, x *Term) *Term { return b.mk(op, x.W, 0, x) }
